@@ -1,5 +1,6 @@
 # Copyright (c) 2023 Graphcore Ltd. All rights reserved.
 import logging
+from inspect import signature
 from typing import Any, Callable, Dict, List, Optional, Tuple, TypeVar
 
 import torch.nn.functional as F
@@ -94,18 +95,23 @@ def _replace_with_quantised(
 ) -> None:
     # Ideally we'd pass the formats as kwargs, but it currently causes a torch fx bug.
     # This workaround will suffice for now...
+    assert callable(node.target)
+    quantised_fn = _replacement_map[node.target]
     args = [*node.args]
-    if len(node.args) == 2:  # pragma: no cover
-        args.append(None)
+    kwargs = dict(node.kwargs)
+    # The formats are spliced in after the first three parameters, so any of those
+    # which were omitted or passed by keyword have to be made positional first
+    for name in list(signature(quantised_fn).parameters)[len(args) : 3]:
+        args.append(kwargs.pop(name, None))
     # Breaks when I pass in FPFormat objects, so convert to tuple and back
     args = (
         args[:3] + [format_to_tuple(fwd_format), format_to_tuple(bwd_format)] + args[3:]
     )
 
-    assert callable(node.target)
-    quantised_fn = _replacement_map[node.target]
     logger.info("quantising function: %s", node)
-    replace_node_with_function(graph, node, quantised_fn, args=tuple(args))
+    replace_node_with_function(
+        graph, node, quantised_fn, args=tuple(args), kwargs=kwargs
+    )
 
 
 def _quantisation_backend(fwd_format: FPFormat, bwd_format: FPFormat) -> Backend:
